@@ -60,7 +60,7 @@ def run(tier):
         lists.append((nk, behs))
         log("[C08] TLC enumerated %d lists (%s)" % (len(behs), what))
     batches = []
-    fams = ["empty0", "be4", "marker", "prefix"]
+    fams = ["empty0", "be4", "marker", "prefix", "zerotail"]
     n3 = None if thorough else 1600
     n4 = None if thorough else 600
     chosen = []
